@@ -112,6 +112,7 @@ func corsConfigs() []corsCfg {
 type corsReq struct {
 	Method, Path, Origin, ACRM, ACRH string
 	HasOrigin, HasACRH               bool
+	Origin2                          string // a second Origin field line (the request's origin is what Header.Get answers: the first)
 }
 
 func (q corsReq) req() hv.Req {
@@ -130,6 +131,12 @@ func (q corsReq) req() hv.Req {
 		if len(lines) > 1 {
 			multi = map[string][]string{"Access-Control-Request-Headers": lines[1:]}
 		}
+	}
+	if q.Origin2 != "" {
+		if multi == nil {
+			multi = map[string][]string{}
+		}
+		multi["Origin"] = []string{q.Origin2}
 	}
 	return hv.Req{Method: q.Method, Path: q.Path, Header: h, Multi: multi}
 }
@@ -181,6 +188,8 @@ func corsRequests(hostile bool, c corsCfg) []corsReq {
 	addH(" \nX-Bad\n")
 	addH("Content-Type\nX-Bad") // the list spread over two field lines: an allowed name first, a foreign one on the second line
 	addH("X-Bad\ncontent-type")
+	addH("content-type\t") // optional white space around a list member is SP or HTAB
+	addH("\tContent-Type")
 	if len(named) > 1 {
 		addH(strings.Join(named, "\n")) // every allowed name on a line of its own
 		addH(strings.ToLower(strings.Join(named, ", ")))
@@ -188,6 +197,8 @@ func corsRequests(hostile bool, c corsCfg) []corsReq {
 		k := len(named[0])
 		addH(j[k-1 : k+2]) // e.g. "e,X": spans two names
 		addH(named[len(named)-1] + "," + named[0])
+		addH(strings.Join(named, ",\t"))
+		addH(strings.Join(named, "\t, "))
 	}
 	for _, m := range []string{"GET", "HEAD", "POST", "PUT", "OPTIONS", "TRACE", "", "BOGUS"} { // "" and BOGUS: served by no route, always 405/404
 		for _, p := range []string{"/r", "/w", "/p", "/none", "*", "" /* absolute-form target without a path */, "/boom"} {
@@ -197,6 +208,14 @@ func corsRequests(hostile bool, c corsCfg) []corsReq {
 						out = append(out, corsReq{Method: m, Path: p, Origin: o.v, HasOrigin: o.has, ACRM: am, ACRH: ah.v, HasACRH: ah.has})
 					}
 				}
+			}
+		}
+	}
+	// two Origin field lines: the first one is the request's origin, whatever the second says
+	for _, m := range []string{"GET", "OPTIONS"} {
+		for _, am := range []string{"", "GET"} {
+			for _, pair := range [][2]string{{"https://evil", "https://a"}, {"https://a", "https://evil"}, {"https://evil", "*"}} {
+				out = append(out, corsReq{Method: m, Path: "/r", Origin: pair[0], HasOrigin: true, Origin2: pair[1], ACRM: am})
 			}
 		}
 	}
@@ -388,6 +407,14 @@ func corsJob(raw json.RawMessage) (any, error) {
 		listed := q.HasOrigin && contains(c.Origins, q.Origin) && q.Origin != "*"
 		route := t.Routes[q.Path]
 		served := route != nil && o.Status != 404 && o.Status != 405 && contains(t.Allow(q.Path), q.Method)
+		if it.Prop == "C12" && q.Method == "OPTIONS" && route != nil && !o.Paniced && o.Kind != "OPT" {
+			// CORS adds headers; the request itself still goes to the route's automatic OPTIONS handler (and the
+			// middlewares around it), preflight or not, granted or not
+			rep("C12.options-handler", "options-not-answered-by-its-handler", q, fmt.Sprintf("status %d, handler kind %q (%s)", o.Status, o.Kind, o.HID), "the automatic OPTIONS handler of "+q.Path)
+		}
+		if q.Path == "*" && q.Method == "OPTIONS" && o.Status == 200 {
+			served = true // the server-wide OPTIONS is an ordinary served request, never a preflight
+		}
 		preflight := q.Method == "OPTIONS" && q.ACRM != "" && q.Path != "*"
 		// requested headers
 		reqHeadersOK := true
